@@ -70,3 +70,25 @@ TECHNIQUE["C08"] = "deterministic simulation of optimisation histories with eige
 LEVEL_TEXT["C17"] = "(a) random symmetric one-/two-electron integrals (1-3 spatial orbitals, sparse/vanishing blocks, stacked/flat, with/without quantum numbers) through int_to_h + qc_model + Mpo against a second-quantised matrix assembled from the harness's own anticommuting operators, Hermiticity and [H,N_alpha]=[H,N_beta]=0; (b) swap SCHEDULES: optimize_mps and two-site TDVP with on-the-fly swapping under the natural criteria (OFS-S/D/D-S/debug) and under scheduler-forced legal decisions (SimSwap), plus direct try_swap_site sequences: afterwards the re-ordered operator equals the original in the new order (fermionic sign map for Jordan-Wigner models, checked against two independent references), energies obey the variational bound of the unchanged spectrum, the state permuted back follows the un-swapped exact trajectory."
 LEVEL_NOTE["C17"] = _CHAIN_NOTE + " Swapping is only offered for plain Model objects with single-DoF sites, a two-site method and the fixed criterion (library preconditions)."
 TECHNIQUE["C17"] = "deterministic simulation of swap schedules (natural + scheduler-forced decisions) against fermionic / permutation reference models"
+
+_TREE_NOTE = ("Trusted: numpy/scipy dense algebra; BasisSet.op_mat / sigmaqn; the harness's own recursive contraction of node tensors "
+              "(simlab/tree.py:dense_tree, independent of TTNS/TTNO.todense, which is itself checked against it).  Topologies, models and states are sampled "
+              "(strength of seeded random testing); the simulation dimension is the session history over several trees sharing the same basis-set objects: "
+              "scratch re-parenting inside expectation(), gauge moves by other holders, RNG position, GC events.")
+LEVEL_TEXT["C02"] = ("Seeded sessions over 1-4 topologies built on the SAME basis-set objects (explicit random parent vectors with 0-3 basis sets per node and dummy root/internal/leaf nodes, "
+                     "the same tree with permuted child order, linear/binary/T3NS/binary- and ternary-MCTDH constructors with and without primitive contraction): every TTNO of real term lists "
+                     "(three bipartite algorithms) equals the dense sum of Kronecker products to 1e-9, the same term list on another topology and the chain MPO give the same matrix, "
+                     "TTNO.todense(order) agrees with the harness contraction, constructors keep every basis set exactly once, construction draws nothing from the global RNG.")
+LEVEL_TEXT["C11"] = ("Seeded sessions over tree states on several topologies: add / + (incl. different prefactors), scale (in place or not), copy/to_complex, TTNO.apply / @ (optionally canonicalising), "
+                     "canonicalise (isometry of every non-root node to 1e-10), lossless compress, from_mps (with prefactor, complex), norm/ttns_norm, expectation of TTNO/Op/OpSum (twice in a row), "
+                     "todense(order), 1-site RDMs and entropies of selected nodes, 1-dof and 2-dof RDMs, bond entropies: all equal the dense-vector results to 1e-9 (entropies 1e-7); every arithmetic "
+                     "result is re-checked after canonicalise + lossless compress on a scratch copy; sector and stored-label monitor (C06) and bystander monitor (C13) run after every step; "
+                     "tree compress with truncation is judged by Eckart-Young bounds over all edges (C05); dump/load round trip (C14).")
+LEVEL_TEXT["C12"] = ("All four tree schemes, real and imaginary time, multi-step histories (evolved states are evolved again, after arithmetic and gauge moves), judged against the dense propagator: "
+                     "P&C-RK4 by 6x^5/5!, VMF by the ODE tolerances + regularisation, projector splitting by 1e-8 where the integrator is provably exact (bonds exactly at the sector caps and an exactness centre, "
+                     "simlab/ref/exactness.py) and by 0.25 x^3 where only the tangent space is complete; one-site PS conserves norm and energy at any bond dimension; sector conservation by the C06 monitor; "
+                     "the input state must be left untouched (C13); lock-step runs of the chain implementation and the linear tree of from_mps for 1-3 steps with all schemes.")
+for _p in ("C02", "C11", "C12"):
+    LEVEL_NOTE[_p] = _TREE_NOTE
+    TECHNIQUE[_p] = "deterministic simulation of API-call histories on a population of tree tensor networks over shared basis objects with a dense reference model (seeded schedule search, ddmin replay)"
+LEVEL_NOTE["C12"] += "  Bounds are judged only for x = ||H|| dt in [0.02, 0.5]; constants were calibrated on the unchanged tree with >10x margin (max measured/allowed is recorded in the evidence)."
